@@ -81,8 +81,8 @@ impl Prop for BoundDominates {
 
     fn runs(&self, tier: Tier) -> u64 {
         match tier {
-            Tier::Quick => 12_000,
-            Tier::Thorough => 250_000,
+            Tier::Quick => 120_000,
+            Tier::Thorough => 2_400_000,
         }
     }
 
@@ -224,8 +224,8 @@ impl Prop for CfrRate {
 
     fn runs(&self, tier: Tier) -> u64 {
         match tier {
-            Tier::Quick => 5_000,
-            Tier::Thorough => 100_000,
+            Tier::Quick => 60_000,
+            Tier::Thorough => 1_200_000,
         }
     }
 
@@ -352,8 +352,8 @@ impl Prop for SampledConverge {
 
     fn runs(&self, tier: Tier) -> u64 {
         match tier {
-            Tier::Quick => 2_000,
-            Tier::Thorough => 40_000,
+            Tier::Quick => 5_000,
+            Tier::Thorough => 100_000,
         }
     }
 
